@@ -45,8 +45,8 @@ EXPLANATION = (
     "rebuilds the symmetric difference. R-C09-4: store_results_in_network / save_results report 0 demand / pressure / leak, elevation as head and 0 "
     "flow for isolated elements in 6 mock runs and never zero a connected one; (T2, symbolic path enumeration with guards classified by regex on "
     "their text) every constraint builder gives the q = 0 row to a Closed-or-isolated link and no balance / PDD / leak row to an isolated junction. "
-    "R-C09-5 (T1 presence / text match): add_pipe, add_pump and add_valve contain an assignment to _user_status whose value text mentions "
-    "initial_status. Reachability on all graphs is not decided.")
+    "R-C09-5 (T3, finite: 10 link kinds x their initial statuses x two spellings): links built through the public API by the repository's constructors "
+    "(interpreted) read the status they were created with before any simulation. Reachability on all graphs is not decided.")
 RULE_TEXT = ("one instance = one semantic fact of one evaluated scenario step (graph encoding per kind of node pair, search result per graph family, flag / set "
              "state per search round, reported quantity, constraint builder); distinct = distinct constructs")
 ASSUMPTIONS = [
@@ -1490,27 +1490,48 @@ def run(repo, chk):
 
     # ---------------------------------------------------------------- R-C09-5 a link created closed is closed in the first solve
     with chk.part("R-C09-5 a link created closed is closed in the first solve"):
-        # the graph (and every status rule) reads link.status, which follows _user_status: all three add_* siblings must start it from initial_status
-        # (presence / text match: an Assign to attribute _user_status whose unparsed value, after substituting single-definition locals, contains 'initial_status')
+        # decided by BUILDING links through the public API (the repository's constructors, interpreted) in every status they can be given -- as a name and
+        # as a LinkStatus member -- and reading them back before any simulation: the status the isolation graph and every status rule read must be the
+        # initial status the caller asked for  (until session 3 this was a text match on an assignment to _user_status in the three add_* methods)
+        from ..concrete import ProgramError as _PE, Unsupported as _US
+        from .c13 import model_world
         MODEL = "wntr/network/model.py"
-        for meth in ("add_pipe", "add_pump", "add_valve"):
-            fn = repo.func(MODEL, "LinkRegistry." + meth)
-            chk.fn(fn)
-            us = [a for a in walk(fn) if isinstance(a, ast.Assign) and isinstance(a.targets[0], ast.Attribute) and a.targets[0].attr == "_user_status"]
-
-            def origin(v, depth=0):
-                """text of the value with temporaries replaced by their single reaching assignment"""
-                if isinstance(v, ast.Name) and depth < 4:
-                    defs = [a for a in walk(fn) if isinstance(a, ast.Assign) and len(a.targets) == 1 and isinstance(a.targets[0], ast.Name) and a.targets[0].id == v.id]
-                    if len(defs) == 1:
-                        return origin(defs[0].value, depth + 1)
-                return unparse(v)
-            okus = bool(us) and all("initial_status" in origin(a.value) for a in us)
-            chk.expect(okus, "R-C09-5", "LinkRegistry.%s starts the link's run-time status from initial_status" % meth, loc(fn),
-                       "the element keeps the constructor default (Opened / Active) until reset_initial_values: a pump or valve created with initial_status='CLOSED' is simulated open and the "
-                       "junctions behind it are served instead of zeroed (add_pipe sets _user_status, its siblings must too)", expected="<link>._user_status = initial_status",
-                       found=[norm(a) for a in us])
-        chk.floor("R-C09-5", 3)
+        fns = {meth: repo.func(MODEL, "LinkRegistry." + meth) for meth in ("add_pipe", "add_pump", "add_valve")}
+        chk.fn(*fns.values())
+        world = model_world(repo)
+        I = world.interp
+        call = lambda o, m, *a, **k: I.call(I.getattr_(o, m), list(a), k)
+        LSr = world.overrides["wntr.network.base.LinkStatus"]
+        try:
+            wn = world.function(MODEL, "WaterNetworkModel")()
+            call(wn, "add_curve", "HC", "HEAD", [(0.0, 40.0), (0.05, 30.0), (0.1, 10.0)])
+            call(wn, "add_curve", "GC", "HEADLOSS", [(0.0, 0.0), (0.1, 2.0)])
+            for n_ in ("A", "B"):
+                call(wn, "add_junction", n_)
+            cases = [("add_pipe", dict(), ("OPEN", "CLOSED")), ("add_pipe", dict(check_valve=True), ("OPEN",)),
+                     ("add_pump", dict(pump_type="POWER", pump_parameter=1000.0), ("OPEN", "CLOSED")), ("add_pump", dict(pump_type="HEAD", pump_parameter="HC"), ("OPEN", "CLOSED"))]
+            cases += [("add_valve", dict(valve_type=vt, initial_setting=("GC" if vt == "GPV" else 5.0)), ("ACTIVE", "OPEN", "CLOSED")) for vt in ("PRV", "PSV", "PBV", "FCV", "TCV", "GPV")]
+            k = 0
+            for meth, kw, statuses in cases:
+                for st_name in statuses:
+                    for as_member in (False, True):
+                        k += 1
+                        nm = "L%d" % k
+                        want = LSr[st_name.capitalize() if st_name != "CV" else "CV"] if st_name.capitalize() in LSr.__members__ else LSr[{"OPEN": "Open", "CLOSED": "Closed", "ACTIVE": "Active"}[st_name]]
+                        call(wn, meth, nm, "A", "B", initial_status=(want if as_member else st_name), **kw)
+                        l = call(wn, "get_link", nm)
+                        got = I.getattr_(l, "status")
+                        chk.expect(got == want and I.getattr_(l, "initial_status") == want, "R-C09-5",
+                                   "a %s%s created with initial_status %s (%s) reads status %s before any simulation" % (
+                                       meth[4:], " " + str(kw.get("valve_type") or kw.get("pump_type") or ("with a check valve" if kw.get("check_valve") else "")).strip(), st_name,
+                                       "a LinkStatus member" if as_member else "a name", want.name), loc(fns[meth]),
+                                   "the isolation graph and the status rules read link.status; a link created closed that reads open is simulated open and the junctions behind it are "
+                                   "served instead of zeroed", expected=want.name, found="status %s, initial_status %s" % (getattr(got, "name", got), getattr(I.getattr_(l, "initial_status"), "name", None)))
+        except _PE as e:
+            chk.bad("R-C09-5", "links can be created in every initial status through the public API", loc(fns["add_pipe"]), found="%s (line %s)" % (e, e.lineno))
+        except _US as e:
+            raise ExtractError("R-C09-5: %s" % e)
+        chk.floor("R-C09-5", 40)
 
 
 WITNESSES = [
@@ -1532,7 +1553,9 @@ WITNESSES = [
     dict(name="isolated-junction-keeps-demand", file=HYD, old="            node._head = node.elevation\n            node._demand = 0\n", new="            node._head = node.elevation\n", rule="R-C09-4"),
     dict(name="isolated-junction-head-zero", file=HYD, old="            node._head = node.elevation\n", new="            node._head = 0\n", rule="R-C09-4"),
     dict(name="graph-shape-inferred", file=CORE, old=", shape=(self._wn.num_nodes, self._wn.num_nodes))", new=")", rule="R-C09-1"),
-    dict(name="pump-created-closed-starts-open", file="wntr/network/model.py", old="        pump._user_status = pump.initial_status  # as add_pipe: a link starts in its initial status\n", new="", rule="R-C09-5"),
+    dict(name="pump-run-time-status-left-to-the-initial-status-setter-preserving", file="wntr/network/model.py", old="        pump._user_status = pump.initial_status  # as add_pipe: a link starts in its initial status\n", new="", silent=True),
+    dict(name="pump-created-closed-starts-open", file="wntr/network/model.py", old="        pump._user_status = pump.initial_status  # as add_pipe: a link starts in its initial status\n", new="        pump._user_status = LinkStatus.Open\n", rule="R-C09-5"),
+    dict(name="initial-status-setter-leaves-the-run-time-status-alone-and-valves-do-not-copy-it", file="wntr/network/model.py", old="        valve._user_status = valve.initial_status  # as add_pipe: a link starts in its initial status\n", new="        valve._user_status = LinkStatus.Active\n", rule="R-C09-5"),
     dict(name="isolated-link-keeps-flow", file=HYD, old="        if link._is_isolated:\n            link._flow = 0", new="        if link._is_isolated and link.status == 0:\n            link._flow = 0", rule="R-C09-4"),
     # ---- behaviour-preserving variants (must stay quiet): the shapes of the refactorings the rules are required to tolerate
     dict(name="quiet-search-split-into-helpers-renamed-locals", file=CORE, silent=True,
